@@ -53,7 +53,7 @@ def shards(tier, seed):
     specs = []
 
     def split(b, per, optmode, flagmode="all"):
-        cnt = U.count_members(b["N"], b["G"], b.get("times", "id"), flags="none")
+        cnt = U.count_members(b["N"], b["G"], "id" if b.get("times") == "rev" else b.get("times", "id"), flags="none")
         cnt *= (2 ** b["N"]) if flagmode == "all" else 3
         n = max(1, -(-cnt // per))
         for k in range(n):
@@ -64,6 +64,9 @@ def shards(tier, seed):
         split(dict(N=3, G=2, times="id"), 30, "full")
         split(dict(N=3, G=3, times="id"), 24, "quick")
         split(dict(N=4, G=2, times="id"), 24, "quick", "some")
+        # node ids in reverse time order (parents have smaller ids than their children)
+        split(dict(N=3, G=2, times="rev"), 30, "full")
+        split(dict(N=4, G=2, times="rev"), 24, "quick", "some")
     else:
         split(dict(N=1, G=2, times="id"), 30, "full")
         split(dict(N=2, G=3, times="weak"), 30, "full")
